@@ -18,6 +18,7 @@ CONSTANTS
  AnsFree = FALSE
  PollWhileWaiting = FALSE
  PreFixF9 = FALSE
+ PreFixWDel = FALSE
  ThirdPartyFatal = FALSE
  Gen = "none"
  ScriptLen = 0
